@@ -23,6 +23,10 @@ def register(E):
     E.const_models['js_int::UInt::MAX'] = mk('UInt', z3.BitVecVal(MAXI, 64))
     E.const_models['js_int::UInt::MIN'] = mk('UInt', z3.BitVecVal(0, 64))
 
+    @model(r'^<js_int::(Int|UInt) as std::default::Default>::default$')
+    def _(E, st, callee, a, m):
+        return [(T, mk(m.group(1), z3.BitVecVal(0, 64)))]
+
     @model(r'^<js_int::(Int|UInt) as std::convert::From>::from$')
     def _(E, st, callee, a, m):
         kind = m.group(1)
